@@ -504,13 +504,57 @@ class WalletWorld:
             if lt == 'tip':
                 extra['locktime'] = self.chain.tip
             self.request_extra = dict(extra, amt_form=form, addr_form=aform)
+            if ch.coin('input_arr', 0.2):
+                # explicit input list: (txid, output_n, key_id, value) tuples the caller picked
+                self.quiet = True
+                try:
+                    all_us = self.spendable(wi, 0, acc)
+                finally:
+                    self.quiet = False
+                need = sum(v for _, v in outs)
+                tup = lambda u: (u['txid'], u['output_n'], u['key_id'], u['value'])
+                ia_kind = ch.pick('ia_kind', ['valid', 'valid', 'short', 'rich', 'dup', 'spent'])
+                order = [all_us[i] for i in ch.perm('ia_order', len(all_us))] if all_us else []
+                ia = None
+                if ia_kind in ('valid', 'dup'):
+                    pick, tot = [], 0
+                    for u in order:
+                        pick.append(u)
+                        tot += u['value']
+                        if tot >= need + 30000:
+                            break
+                    if pick and tot >= need + 30000:
+                        ia = [tup(u) for u in pick]
+                        if ia_kind == 'dup':
+                            ia.append(ia[0])
+                elif ia_kind == 'short':
+                    small = sorted(order, key=lambda u: u['value'])[:1]
+                    if small and small[0]['value'] < need:
+                        ia = [tup(small[0])]
+                elif ia_kind == 'rich':
+                    big = sorted(order, key=lambda u: -u['value'])[:1]
+                    if big and big[0]['value'] > need * 3 + 100000:
+                        ia = [tup(big[0])]
+                else:
+                    gone = sorted(op_ for op_ in wi.acked_spent if op_ in self.chain.outs)
+                    if gone:
+                        g = gone[ch.index('ia_spent', len(gone))]
+                        ia = [(g[0], g[1])] + [tup(u) for u in order[:1]]
+                if ia:
+                    extra['input_arr'] = ia
+                    extra.pop('max_utxos', None)
+                    extra.pop('input_key_id', None)
+                    self.request_extra = dict(self.request_extra, input_arr=ia_kind, n_explicit=len(ia))
+                    self.request_extra.pop('max_utxos', None)
+                    self.request_extra.pop('input_key_id', None)
+                    us = all_us      # what is eligible for an explicit list: any unspent output of the wallet
         self.w.op('send', wallet=wi.name, outs=[(a[:14], v) for a, v in outs], fee=fee, broadcast=broadcast,
                   min_confirms=min_conf, rbf=rbf, nco=nco, total=total, extra={k: str(v) for k, v in self.request_extra.items()},
                   **acc)
         extra.update(acc)
         seq0 = self.w.log.seq
         n_acc0 = len(self.chain.accepted_broadcasts)
-        if n_out == 1 and ch.coin('send_to', 0.5) and 'max_utxos' not in extra:
+        if n_out == 1 and ch.coin('send_to', 0.5) and 'max_utxos' not in extra and 'input_arr' not in extra:
             fn = lambda: h.send_to(outs_arg[0][0], outs_arg[0][1], fee=fee, min_confirms=min_conf, broadcast=broadcast,
                                    replace_by_fee=rbf, number_of_change_outputs=nco,
                                    **{k: v for k, v in extra.items() if k in ('input_key_id', 'random_output_order', 'locktime',
